@@ -899,6 +899,9 @@ func (engine *Engine) readConnBlocking(conn *Conn, parser *Parser, decrease func
 		readBufferPool.Free(pbuf)
 		if !conn.Trasfered {
 			parserCloser.CloseAndClean(err)
+			// the reader may have ended on a parse error, with the peer
+			// still connected.
+			_ = conn.Close()
 		}
 		engine.mux.Lock()
 		switch vt := conn.Conn.(type) {
